@@ -4,7 +4,22 @@
 UNIT_PROPS = {
     "crdt": ["C22"],
     "service_time": ["C29"],
+    "wire_frame": ["C14", "C13"],
+    "limiter": ["C17"],
+    "identity": ["C19", "C04", "C11", "C12"],
 }
+
+LIMITER_GROUP = ["new_establishes_invariant", "refill_contract", "refill_amount_bounded", "take_contract"]
+
+
+def _lim(h, **kw):
+    d = {"harness": h, "package": "radicle-node", "group": LIMITER_GROUP, "timeout": 1800,
+         "functions": ["radicle-node::service::limiter::TokenBucket::{new,refill,take}"],
+         "trusted": ["kani/CBMC bit-precise IEEE-754 semantics; localtime::LocalTime (real crate compiled)"],
+         "assumptions": ["kani::assume: bucket invariant rate finite >= 0, 0 <= tokens <= capacity, capacity = usize as f64 (established by TokenBucket::new, preserved by refill/take: both proved)"]}
+    d.update(kw)
+    return d
+
 
 # vx unit -> kani harness used to look for a concrete failing input when a Verus obligation fails
 PAIRED = {}
@@ -23,5 +38,20 @@ PROPS = {
         "technique": "Verus postcondition on the extracted Service::timestamp (returned > every earlier one, for any clock value) + inductive history lemma over that contract",
         "explanation": "Service::timestamp and the real Timestamp Add/Sub/From/Deref impls are verified: the returned timestamp equals the new last_timestamp, is strictly greater than the previous last_timestamp and >= the clock, for any clock value (no monotonicity assumed). lemma_strictly_increasing lifts the per-call contract to any history of calls interleaved with arbitrary clock writes.",
         "not_decided": "Precondition last_timestamp < u64::MAX (saturating add stalls at 2^64-1 ms). That every announcement constructor uses the value just returned by timestamp() is checked in unit service (call sites), not here. localtime::LocalTime::as_millis assumed to return the stored millisecond count.",
+    },
+    "C14": {
+        "vx": ["wire_frame"],
+        "kx": [],
+        "technique": "Verus contracts on extracted VarInt/payload/Control/StreamId/Frame decoders and Deserializer over a ghost byte-stream model of io::Read; parse spec from the statement; allocation budget as precondition of the allocator stand-ins; chunking lemma by induction over the Decode contract",
+        "explanation": "Every decoder's result is proved to match a parse specification (Complete(n)/Incomplete/Invalid) of the bytes available, with exact consumption; a complete frame with a truncated/invalid message is Invalid (non-EOF error); every allocation site sized by input (vec![x; n], Vec::with_capacity) carries the precondition n <= bytes received + 64 KiB; Deserializer::deserialize_next drains exactly the frame or leaves the buffer unchanged; lemma_chunking shows any split of the input yields the same frames, leftover and error.",
+        "not_decided": "Message::decode (inner gossip message) is only assumed to satisfy the Decode contract; io::Read/Cursor/read_to_end/byteorder are assumed stream-model contracts; encoding side (that encodings parse as Complete) is C15.",
+    },
+    "C17": {
+        "vx": ["limiter"],
+        "kx": [_lim("new_establishes_invariant"), _lim("refill_contract"), _lim("take_contract"),
+               _lim("refill_amount_bounded", bounded=True, bound="elapsed < 256 whole seconds; rate with <= 10 significant mantissa bits")],
+        "technique": "Kani full-domain loop-free harnesses on the real TokenBucket::{new,refill,take} (f64 bit-precise) + Verus contract on extracted RateLimiter::limit (bypass/LAN gate) + Verus window lemma over the per-call contract",
+        "explanation": "Per call, for every f64/u64 input satisfying the bucket invariant and ANY clock value: no panic, refilled_at never moves backwards, tokens stay in [0, capacity], refill never removes tokens and credits nothing without a whole forward second, take admits only with a whole token and removes exactly one. RateLimiter::limit returns false and leaves the buckets untouched for bypassed nodes and non-routable IPs. lemma_window_bound: along any run obeying the step contract, admitted <= capacity + rate * whole seconds elapsed.",
+        "not_decided": "Exact refill amount tokens' == min(cap, tokens + secs*rate) is only proved on a bounded domain (labelled bounded); the window lemma is over exact integer arithmetic in micro-tokens, f64 rounding of + and * is idealised there; HashMap entry/or_insert_with in limit is a stand-in with arbitrary result.",
     },
 }
